@@ -611,28 +611,57 @@ func luaAgree(v t38.Value, j any, outer string) string {
 			}
 		}
 		if v.Kind == '*' && !v.Null && len(v.Arr) == len(x) {
-			seen := map[string]bool{}
+			// map: RESP [[key value] ...] in any order. A key that is not a
+			// string is a JSON member name made of its Lua text ("1.5", "true",
+			// "table: 0x…") and a converted value in RESP (floor, 1, []).
+			used := map[string]bool{}
 			for _, p := range v.Arr {
 				if p.Kind != '*' || len(p.Arr) != 2 {
 					return bad()
 				}
-				k, ok := bulkText(p.Arr[0])
-				if !ok {
-					return bad()
+				found := false
+				for name, jv := range x {
+					if used[name] || !luaKeyAgree(p.Arr[0], name) || luaAgree(p.Arr[1], jv, outer) != "" {
+						continue
+					}
+					used[name] = true
+					found = true
+					break
 				}
-				jv, has := x[lossy(k)]
-				if !has || seen[lossy(k)] {
+				if !found {
 					return bad()
-				}
-				seen[lossy(k)] = true
-				if d := luaAgree(p.Arr[1], jv, outer); d != "" {
-					return d
 				}
 			}
 			return ""
 		}
 	}
 	return bad()
+}
+
+// luaKeyAgree: a table key as RESP shows it vs the JSON member name.
+func luaKeyAgree(k t38.Value, name string) bool {
+	switch {
+	case k.Kind == '$' && !k.Null:
+		if lossy(k.Str) == name {
+			return true
+		}
+		// non-finite numeric keys are bulk strings in RESP
+		f, err := strconv.ParseFloat(name, 64)
+		return err == nil && (math.IsNaN(f) || math.IsInf(f, 0)) && numEq(k.Str, name)
+	case k.Kind == ':':
+		if name == "true" && k.Int == 1 {
+			return true
+		}
+		f, err := strconv.ParseFloat(name, 64)
+		return err == nil && (float64(k.Int) == math.Floor(f) || math.Abs(f) >= 9e18)
+	case k.Kind == '$' && k.Null:
+		return name == "false" || name == "nil"
+	case k.Kind == '*':
+		return strings.HasPrefix(name, "table: ")
+	case k.Kind == '-':
+		return strings.HasPrefix(name, "function: ") || strings.HasPrefix(name, "userdata: ")
+	}
+	return false
 }
 
 // stable members of SERVER / SERVER EXT / INFO (the others depend on the
